@@ -65,3 +65,23 @@ Definition cast_assignable_ok (lhs target : ty) : bool :=
   if valid && (is_some td || is_some ld) && negb (equal lhs target)
   then (match td with Some tu => equal lhs tu | None => false end) || (match ld with Some lu => equal target lu | None => false end)
   else valid.
+
+(* VisitFuncCall, per argument: `param` is the declared parameter type, `is_ref` whether it is a Referenz
+   parameter, `assignable` whether the argument expression is an ast.Assigneable (a name, an indexing, a field
+   access, a reference cast), `text_index` whether it is an indexing into a Text.
+     if paramType.IsReference && !assignable                                  -> TYP_EXPECTED_REFERENCE
+     else if paramType.IsReference && Equal(paramType.Type, BUCHSTABE) && text_index -> TYP_INVALID_REFERENCE
+     if !Equal(argType, paramType.Type)                                       -> TYP_TYPE_MISMATCH
+   (the alias matching of the parser uses the same Equal test, so a mismatching call ends here) *)
+Definition arg_ok (is_ref assignable text_index : bool) (param arg : ty) : bool :=
+  negb (is_ref && negb assignable) &&
+  negb (is_ref && assignable && equal param (Prim PBuchstabe) && text_index) &&
+  equal arg param.
+
+(* VisitReturnStmt: `ret` = stmt.Func.ReturnType, `v` = type of the returned expression (VoidType{} for a
+   bare `Gib zurück`-less return, has_value = false)
+     returnsVoidValue := stmt.Value != nil && IsVoid(returnType)
+     error iff returnsVoidValue || !Equal(ret, v) && (!Equal(ret, VARIABLE) || Equal(v, VoidType{})) *)
+Definition return_ok (has_value : bool) (ret v : ty) : bool :=
+  let returns_void_value := has_value && is_void v in
+  negb (returns_void_value || (negb (equal ret v) && (negb (equal ret Any) || equal v Void))).
